@@ -3,7 +3,8 @@ import os, shutil
 from ..common import Check, hx, RUNDIR
 from ..storecheck import HistGen, Runner, encode_event
 from ..absstore import Abs
-from ..gen import ev_tok
+from ..gen import ev_tok, AUTHORS
+from ..conc import forced, STORE_POINTS
 
 THEOREMS = ['bytes_stable', 'refs_stable_no_growth', 'refs_stable_iff', 'growth_may_move_witness']
 
@@ -77,6 +78,50 @@ def run():
                 addr[key] = a
             c.nontriv((h, k))
         c.extra['references_moved_at_growth_steps'] = moved_at_growth
+        # ---- references under concurrent writers: a store that succeeds while another thread's store
+        # fails (duplicate / invalid deletion / replaced), at every yield point, both directions; the
+        # stored event must read back whole, by offset and by id, before and after one more store
+        scen = []
+        for k in range(4 if Q else 40):
+            g = HistGen(rng, 'C04')
+            ab = Abs([])
+            x = g.new_event(kind=1, pk=AUTHORS[0], content=b'x' * rng.choice([5, 300]))
+            r10 = g.new_event(kind=10000, pk=AUTHORS[1], t=500, tags=[], content=b'holder')
+            pre = [x, r10]
+            for e in pre:
+                ab.store(e)
+            e1 = g.new_event(kind=1, pk=AUTHORS[2], content=b'e' * rng.choice([10, 170, 900]))
+            e2 = g.new_event(kind=1, pk=AUTHORS[2], content=b'f' * rng.choice([10, 400]))
+            fails = {'dup': x,
+                     'invalid': g.new_event(kind=5, pk=AUTHORS[1], t=100, tags=[[b'e', x['id'].hex().encode()]], content=b''),
+                     'replaced': g.new_event(kind=10000, pk=AUTHORS[1], t=100, tags=[], content=b'older')}
+            off1 = ab.store(e1)[1]
+            for why, fe in fails.items():
+                after = ['GID ' + hx(e1['id']), 'STO ' + ev_tok(e2), 'GID ' + hx(e1['id'])]
+                if why != 'invalid':
+                    after += ['OFF %d' % off1]
+                for p in STORE_POINTS:
+                    for a, b, who in ((e1, fe, 'A'), (fe, e1, 'B')):
+                        scen.append(dict(pre=['STO ' + ev_tok(e) for e in pre], point=p, a='STO ' + ev_tok(a), b='STO ' + ev_tok(b),
+                                         after=after, who=who, why=why, e1=e1))
+        if Q:
+            scen = rng.sample(scen, min(len(scen), 90))
+        for s_, r in zip(scen, forced(c, base, scen)):
+            if 'error' in r or 'HUNG' in r.get('raw', '') or 'panic' in r.get('raw', ''):
+                c.violation('oracle', 'forced schedule did not complete: %s' % (r.get('error') or r['raw'])[:90], r['lines'])
+                continue
+            r1 = r['ra'] if s_['who'] == 'A' else r['rb']
+            c.count('conc:%s:%s' % (s_['why'], 'reached' if r['reached'] else 'not-reached'))
+            if not r1.startswith('ok'):
+                c.violation('oracle', 'a fresh event was refused (%s) while another thread\'s store failed (%s)' % (r1[:20], s_['why']), r['lines'])
+                continue
+            want = 'some ' + encode_event(s_['e1']).hex()
+            got = [r['after'][0], r['after'][2]] + r['after'][3:]
+            if any(x_ != want for x_ in got):
+                c.violation('oracle', 'an event stored successfully while another thread\'s store failed (%s, paused at %s) does not read back '
+                            'whole afterwards: %s' % (s_['why'], s_['point'], [x_[:24] for x_ in got]), r['lines'])
+                continue
+            c.nontriv(('conc', s_['why'], s_['point'], s_['who'], k))
         c.sample({'history': [l[:80] for l in lines[:6]], 'replies': [o[:60] for o in out[:6]]})
     finally:
         shutil.rmtree(base, ignore_errors=True)
